@@ -34,10 +34,16 @@ structure Fix where
   d1 : Bool := false
   d2 : Bool := false
   d9 : Bool := false
+  /-- 0d891c4: `PCBO/PCSO.__round__` copies the ancilla counter -/
+  dr : Bool := false
+  /-- 1495eb6 (D10): `PCBO/PCSO.update(model)` raises the ancilla counter to the argument's -/
+  d10 : Bool := false
   deriving DecidableEq, Repr, Inhabited
 
+/-- the code before all repairs -/
 def Fix.current : Fix := {}
-def Fix.fixed : Fix := { d1 := true, d2 := true, d9 := true }
+/-- **the code as it is now**: 67e6723 (D1), 8d2eba8 (D2), 77284a9 (D9), 0d891c4 (round), 1495eb6 (D10) applied -/
+def Fix.fixed : Fix := { d1 := true, d2 := true, d9 := true, dr := true, d10 := true }
 
 structure State where
   kind : Kind
@@ -268,6 +274,12 @@ def consFreshB (κ : Kind) (anc : Nat) (r : Rel) (P : Poly) (lam : Rat) (lt : Bo
 
 /-! ## edits -/
 
+/-- the in-place arithmetic edits, as operands of the copying operators `H = H <op> x` -/
+inductive Arith
+  | addC (c : Rat) | subC (c : Rat) | mulC (c : Rat) | divC (c : Rat) | pow (e : Int)
+  | addD (q : Poly) | subD (q : Poly) | mulD (q : Poly)
+  deriving Repr, Inhabited
+
 inductive Op
   | setitem (k : Key) (v : Rat)
   | augitem (k : Key) (a : Aug) (d : Rat)
@@ -284,11 +296,93 @@ inductive Op
   | refresh
   | copy
   | cons (r : Rel) (P : Poly) (lam : Rat) (lt : Bool) (lo hi : Option Rat)
+  -- copy-like operations: the history goes on with the *result*
+  | round (nd : Option Int)            -- `H = round(H[, ndigits])`
+  | subs                               -- `H = H.subs(<substitution of a symbol H does not contain>)`
+  | cast (κ : Kind)                    -- `H = T(H)` for a model class `T` (`T = type(H)`: the same as `copy`)
+  | bin (a : Arith)                    -- `H = H + c`, `c + H`, `H - c`, `H * c`, `c * H`, `-H`, `H / c`, `H ** e`, `H + d`, `H * d`
+  | rsubC (c : Rat)                    -- `H = c - H`
+  | updateM (κg : Kind) (q : Poly) (cs : List (Rel × Poly)) (a : Nat)
+                                       -- `H.update(G)` for a model `G` of class `κg` with terms `q` (dict order),
+                                       -- recorded constraints `cs` and ancilla counter `a`
+  | remap                              -- `H.set_mapping(σ ∘ H.mapping)`, σ the reversal of `0..n-1`
   deriving Repr, Inhabited
 
 def ofExcept (s : State) : Except Err State → State × Option Err
   | .ok s' => (s', none)
   | .error e => (s, some e)
+
+/-! ## copy-like operations -/
+
+/-- `round(x)` of Python for `int`, `Fraction` (and `float` on dyadic values): to the nearest integer, ties to even -/
+def roundHE (x : Rat) : Rat :=
+  let n := x.floor
+  let f := x - (n : Rat)
+  if f < 1/2 then (n : Rat) else if 1/2 < f then ((n + 1 : Int) : Rat) else if n % 2 = 0 then (n : Rat) else ((n + 1 : Int) : Rat)
+
+/-- `round(x, ndigits)` (`fractions.py`: `Fraction(round(x * 10**n), 10**n)` for `n > 0`,
+`Fraction(round(x / 10**-n) * 10**-n)` otherwise) -/
+def roundR (nd : Option Int) (x : Rat) : Rat :=
+  match nd with
+  | none => roundHE x
+  | some d =>
+    let sh : Rat := ((10 ^ d.natAbs : Nat) : Rat)
+    if 0 < d then roundHE (x * sh) / sh else roundHE (x / sh) * sh
+
+/-- `DictArithmetic.__round__` / `subs` followed by the PCBO overrides: `d = cls(); for k, v in self.items():
+d[k] = g(v)` (item *assignment*), then `d._constraints = self.constraints`, and `d._ancilla = self._ancilla`
+iff `keepAnc` (`subs` since d1f4dce, `__round__` since 0d891c4). -/
+def rebuildSet (fx : Fix) (s : State) (g : Rat → Rat) (keepAnc : Bool) : State × Option Err :=
+  match loop (fun st kv => setitem fx st kv.1 (g kv.2)) (init s.kind) s.terms with
+  | (t, none) => ({ t with ancilla := if keepAnc then s.ancilla else 0, constraints := s.constraints }, none)
+  | (_, some e) => (s, some e)
+
+/-- `T(H)`: `T.__init__(H)` fills a fresh `T` by `self[key] += value`; `PCBO.__init__` takes constraints and
+counter only from an argument of its own class.  An exception (degree-3 key into a QUBO) leaves `H` bound. -/
+def cast (fx : Fix) (s : State) (κ : Kind) : State × Option Err :=
+  match iaddLoop fx (init κ) s.terms with
+  | (t, none) =>
+    (if κ == s.kind then { t with ancilla := s.ancilla, constraints := s.constraints } else t, none)
+  | (_, some e) => (s, some e)
+
+/-- the in-place arithmetic edit `a` on `s` -/
+def stepA (fx : Fix) (s : State) : Arith → State × Option Err
+  | .addC c => ofExcept s (augitem fx s [] .add c)
+  | .subC c => ofExcept s (augitem fx s [] .sub c)
+  | .mulC c => scaleLoop fx s .mul c
+  | .divC c => scaleLoop fx s .div c
+  | .pow e => ipow fx s e
+  | .addD q => iaddLoop fx s q
+  | .subD q => isubLoop fx s q
+  | .mulD q => imulD fx s q
+
+/-- `H = H <op> x` (`__add__`, `__radd__`, `__sub__`, `__mul__`, `__rmul__`, `__neg__`, `__truediv__`, `__pow__`):
+`d = self.copy(); d <op>= x; return d`.  An exception leaves `H` bound to the old object. -/
+def copyThen (fx : Fix) (s : State) (f : State → State × Option Err) : State × Option Err :=
+  match copy fx s with
+  | (c, none) =>
+    match f c with
+    | (r, none) => (r, none)
+    | (_, some e) => (s, some e)
+  | (_, some e) => (s, some e)
+
+/-- `PCBO.update(G)`: `DictArithmetic.update` (`self[k] = v` for the items of `G`), then — only if `G` is an
+instance of `self`'s class — `G`'s recorded constraints are appended.  Before 1495eb6 the counter was left alone (D10);
+now it is set to `max(self._ancilla, G._ancilla)`. -/
+def updateM (fx : Fix) (s : State) (κg : Kind) (q : Poly) (cs : List (Rel × Poly)) (a : Nat) :
+    State × Option Err :=
+  match loop (fun st kv => setitem fx st kv.1 kv.2) s q with
+  | (t, none) =>
+    (if hasCons s.kind && κg == s.kind then
+      { t with constraints := t.constraints ++ cs, ancilla := if fx.d10 then max t.ancilla a else t.ancilla }
+     else t, none)
+  | r => r
+
+/-- `set_mapping({l: n-1-i for l, i in mapping.items()})`: a bijection of exactly the mapped labels onto the same
+range; `_next_label` is not touched by `set_mapping`. -/
+def remap (s : State) : State :=
+  { s with mapping := s.mapping.map (fun p => (p.1, s.nextLabel - 1 - p.2)),
+           reverse := s.mapping.map (fun p => (s.nextLabel - 1 - p.2, p.1)) }
 
 /-- one edit on the live object; the second component is the exception it raised, if any -/
 def step (fx : Fix) (s : State) : Op → State × Option Err
@@ -314,6 +408,16 @@ def step (fx : Fix) (s : State) : Op → State × Option Err
       let (rec, anc', delta) := consDelta s.kind s.ancilla r P lam lt (lo, hi)
       iaddLoop fx { s with constraints := s.constraints ++ [rec], ancilla := anc' } delta
     else (s, some .attr)
+  | .round nd => rebuildSet fx s (roundR nd) (fx.dr || !hasCons s.kind)
+  | .subs => rebuildSet fx s id true
+  | .cast κ => cast fx s κ
+  | .bin a => copyThen fx s (fun c => stepA fx c a)
+  | .rsubC c =>
+    match copyThen fx s (fun d => stepA fx d (.mulC (-1))) with
+    | (m, none) => copyThen fx m (fun d => stepA fx d (.addC c))
+    | r => r
+  | .updateM κg q cs a => updateM fx s κg q cs a
+  | .remap => if hasBO s.kind then (remap s, none) else (s, some .attr)
 
 /-- a whole history on a fresh model; exceptions are caught by the caller and the history goes on -/
 def run (fx : Fix) (κ : Kind) (ops : List Op) : State :=
